@@ -183,6 +183,7 @@ static size_t td_add_retired_node(struct thread_data* self, struct obj* p);
 #define XV_retired_nodes_threshold() g_threshold
 static void g_reset(struct guard* self);
 static void g_do_swap(struct guard* self, struct guard* g_p);
+static void g_base_do_swap(struct guard* self, struct guard* g_p);
 #define MP_get(w) ((w) & g_ptr_mask)
 #define MP_reset(x) ((x) = 0)
 static struct obj* xv_obj_of(mptr w) { g_obj_word = w; return &g_obj; }
